@@ -391,6 +391,93 @@ def _affine_in(r, k):
     return True
 
 
+def _rational_in(r, k):
+    """the atom k occurs in r only as integer powers in numerator / denominator monomials, never inside an exponent or another atom"""
+    for poly in (r.num, r.den):
+        for (mono, ex), c in poly.t.items():
+            for emono, ec in ex:
+                if any(ak == k for ak, e in emono):
+                    return False
+            for ak, e in mono:
+                if ak != k and k in Rat.atom(TABLE.atoms[ak]).atoms(deep=True) and ak != k:
+                    at_ = TABLE.atoms[ak]
+                    if at_.kind == 'fn' and at_.name != 'def':
+                        return False
+    return True
+
+
+def _divided_difference_nonzero(r, k, da, db, trials=4):
+    """r = N(D)/S(D) in the definition atom D = atom k.  Q(X, Y) = [N(X) S(Y) - N(Y) S(X)] / (X - Y) as a polynomial (each monomial pair has
+    an explicit divided difference) evaluated at X = value of definition da, Y = value of definition db at sample points: robustly
+    non-zero at one of them means Q is not the zero function"""
+    def split(poly):
+        out = {}
+        for (mono, ex), c in poly.t.items():
+            deg = 0
+            rest = []
+            for ak, e in mono:
+                if ak == k:
+                    deg = e
+                else:
+                    rest.append((ak, e))
+            if deg < 0:
+                return None
+            key = (tuple(rest), ex)
+            out.setdefault(deg, {})
+            out[deg][key] = out[deg].get(key, ZERO) + c
+        return out
+    ns, ss = split(r.num), split(r.den)
+    if ns is None or ss is None:
+        return False
+    ids = sorted(set(r.atoms(deep=True)) | set(da.args[0].atoms(deep=True)) | set(db.args[0].atoms(deep=True)))
+    syms = [TABLE.atoms[i] for i in ids if TABLE.atoms[i].kind == 'sym' and TABLE.atoms[i].name != 'pi']
+    opq = [i for i in ids if TABLE.atoms[i].kind == 'fn' and (TABLE.atoms[i].name.startswith('call:') or TABLE.atoms[i].name in ('item',))]
+    for t in range(trials):
+        env = {}
+        for j, sy in enumerate(syms):
+            frac = ((t + 1) * 0.6180339887498949 + (j + 1) * 0.7548776662466927) % 1.0
+            lo, hi = _sample_range(sy.name)
+            env[sy.id] = lo + (hi - lo) * frac
+        for j, i in enumerate(opq):
+            env[i] = 0.3 + 0.6 * (((t + 1) * 0.5545497 + (j + 1) * 0.3819660) % 1.0)
+        try:
+            X, Y = evalf(da.args[0], env), evalf(db.args[0], env)
+
+            def coef(d):
+                out = {}
+                for deg, terms in d.items():
+                    tot = 0.0
+                    for (rest, ex), c in terms.items():
+                        tot += evalf(Rat(Poly({(rest, ex): c})), env)
+                    out[deg] = tot
+                return out
+            nc, sc = coef(ns), coef(ss)
+        except (NotEvaluable, ZeroDivisionError, OverflowError, ValueError, RecursionError):
+            continue
+        q = 0.0
+        mag = 0.0
+        for j, nj in nc.items():
+            for kk, sk in sc.items():
+                if j == kk:
+                    continue
+                lo_, hi_ = min(j, kk), max(j, kk)
+                dd = sum((X ** m_) * (Y ** (hi_ - lo_ - 1 - m_)) for m_ in range(hi_ - lo_)) * ((X * Y) ** lo_)
+                term = nj * sk * dd * (1 if j > kk else -1)
+                q += term
+                mag += abs(term)
+        if mag > 0 and abs(q) > 1e-6 * mag:
+            return True
+    return False
+
+
+def _sample_range(name):
+    if 'semimaj' in name:
+        return (6.3e6, 6.4e6)
+    if 'inversef' in name:
+        return (280.0, 320.0)
+    return (0.1, 0.9)
+
+
 def _pair_verdict(A1, A2, budget, why):
     """compare two atoms of the same function symbol by their arguments"""
     if A1.kind != 'fn' or A2.kind != 'fn' or A1.name != A2.name or len(A1.args) != len(A2.args):
@@ -461,7 +548,7 @@ def _special_point(ca):
         if not mono_[1] and all((TABLE.atoms[k_].kind == 'sym' and TABLE.atoms[k_].name == 'pi') or (k_ == syms[0] and x_ == 1) for k_, x_ in mono_[0]) \
                 and any(k_ == syms[0] for k_, x_ in mono_[0]):
             return syms[0], Fraction(0), at_special
-    if len(syms) == 2 and target == 0 and e.den.is_const() and len(e.atoms(deep=False)) == 2 and ca.name in ('eq', 'ne'):
+    if len(syms) == 2 and target == 0 and e.den.is_const() and len(e.atoms(deep=False)) == 2 and ca.name in ('eq', 'ne', 'truthy'):
         # s1 == s2 (up to constant factors): the special "value" of s1 is the other input
         cf = {}
         for (mono, ex), c in e.num.t.items():
@@ -602,6 +689,16 @@ def _decide_equal(a, b, budget=None, _why=None):
                         # (D1 + D2 + D3 against D4 + D5 + D6): nothing is concluded here, step 3 unfolds them
                         if len(only_a) == 1 and _affine_in(a, x) and ax.args and ay.args and isinstance(ax.args[0], Rat) and isinstance(ay.args[0], Rat):
                             verdicts.append(decide_equal(ax.args[0], ay.args[0], budget, _why))
+                        elif len(only_a) == 1 and ax.args and ay.args and isinstance(ax.args[0], Rat) and isinstance(ay.args[0], Rat) and _rational_in(a, x):
+                            # R(Da) - R(Db) = (Da - Db) Q(Da, Db) for a rational R: with Da, Db different functions the forms are equal only
+                            # if the divided difference Q vanishes identically - it is evaluated (a sum without cancellation) at sample points
+                            v_ = decide_equal(ax.args[0], ay.args[0], budget, _why)
+                            if v_ == 'different' and not _divided_difference_nonzero(a, x, ax, ay):
+                                v_ = 'unknown'
+                                has_def = True
+                            elif v_ == 'unknown':
+                                has_def = True
+                            verdicts.append(v_)
                         else:
                             has_def = True
                             ck_ = (min(x, y), max(x, y))
@@ -729,6 +826,18 @@ def _decide_equal(a, b, budget=None, _why=None):
                             ca_ = TABLE.atoms[mm_[0][0][0]]
                     if ra_ == 'different' and ca_ is not None and ca_.kind == 'fn' and ca_.name in ('lt', 'le', 'gt', 'ge'):
                         continue
+                    if ca_ is not None and ca_.kind == 'fn' and ca_.name == 'not' and len(ca_.args) == 1 and isinstance(ca_.args[0], Rat):
+                        # ite(not c, A, B) is ite(c, B, A): look at c with the arms exchanged
+                        c1_ = ca_.args[0]
+                        inner_ = None
+                        if len(c1_.num.t) == 1 and c1_.den.is_const():
+                            (mm1_, cc1_), = c1_.num.t.items()
+                            if len(mm1_[0]) == 1 and not mm1_[1]:
+                                inner_ = TABLE.atoms[mm1_[0][0][0]]
+                        if inner_ is not None and inner_.kind == 'fn' and inner_.name in ('and', 'or', 'truthy', 'eq', 'ne'):
+                            flipped = Rat.atom(TABLE.fn('ite', (c1_, at_.args[2], at_.args[1])))
+                            m_ = {k: flipped}
+                            return decide_equal(_subst_top(a, m_), _subst_top(b, m_), budget, _why)
                     if ca_ is not None and ca_.kind == 'fn' and ca_.name in ('eq', 'ne') and len(ca_.args) == 2 and _DECIDE_DEPTH[0] < 12 \
                             and any(isinstance(x_, str) and (x_.startswith('str<') or x_ == 'None') for x_ in ca_.args):
                         # a test of an input against a string / None: both cases are legitimate inputs - the forms must agree under the
@@ -1440,6 +1549,56 @@ def fabs(r):
     if (c.re < 0) or (c.re == 0 and c.im < 0):
         r = -r
     return Rat.atom(TABLE.fn('abs', (r,)))
+
+
+def even_abs(r, _depth=0):
+    """|u|^(2k) = u^(2k) for real u, at any depth: an absolute value that is only ever squared is the value itself"""
+    if _depth > 6:
+        return r
+    changed = [False]
+
+    def fix(poly):
+        out = Poly({})
+        acc = C(0)
+        for (mono, ex), c in poly.t.items():
+            term = Rat(Poly({((), ex): c}))
+            for ak, e in mono:
+                at = TABLE.atoms[ak]
+                if at.kind == 'fn' and at.name == 'abs' and e % 2 == 0 and len(at.args) == 1 and isinstance(at.args[0], Rat):
+                    changed[0] = True
+                    u = even_abs(at.args[0], _depth + 1)
+                    p = C(1)
+                    for _ in range(abs(e)):
+                        p = p * u
+                    term = term * p if e > 0 else term / p
+                else:
+                    term = term * Rat(Poly({(((ak, e),), NOEXP): ONE}))
+            acc = acc + term
+        return acc
+    try:
+        n_, d_ = fix(r.num), fix(r.den)
+    except (ZeroDivisionError, RecursionError):
+        return r
+    if not changed[0]:
+        # look inside function atoms (sqrt(|d|^2 + ...))
+        def f(at):
+            if at.kind == 'fn' and at.name != 'abs' and at.args and any(isinstance(x, Rat) for x in at.args):
+                new_args = tuple(even_abs(x, _depth + 1) if isinstance(x, Rat) else x for x in at.args)
+                if any(isinstance(x, Rat) and isinstance(y, Rat) and not x.equals(y) for x, y in zip(new_args, at.args)):
+                    if at.name == 'def':
+                        return None
+                    ctor = {'sqrt': sqrt, 'atan': atan, 'asin': asin, 'acos': acos, 'log': log}.get(at.name)
+                    if ctor is not None and len(new_args) == 1:
+                        return ctor(new_args[0])
+                    if at.name == 'atan2' and len(new_args) == 2:
+                        return atan2(new_args[0], new_args[1])
+                    return Rat.atom(TABLE.fn(at.name, new_args))
+            return None
+        try:
+            return map_atoms(r, f)
+        except RecursionError:
+            return r
+    return even_abs(n_ / d_, _depth + 1)
 
 
 def opaque(name, args):
